@@ -113,6 +113,48 @@ func (e *Engine) verifyFunction(fc *FuncContract) *FuncResult {
 		}
 	}
 	res.Errors = append(res.Errors, e.chanInvErrors(fc, fn)...)
+	// loops declared complete: structural obligation on the control-flow graph
+	{
+		fi := e.info(fn)
+		for _, c := range fc.Complete {
+			var hdr *ssa.BasicBlock
+			for h, k := range fi.headers {
+				if k == c.Loop {
+					hdr = h
+				}
+			}
+			lab := c.Label
+			if lab == "" {
+				lab = fmt.Sprintf("loop%d", c.Loop)
+			}
+			o := &Oblig{Func: res.Short, Kind: "complete", Label: lab, Prop: c.Prop, Src: c.Src, Goal: "true", Res: SolverResult{Status: "unsat", Solver: "syntactic"}}
+			if hdr == nil {
+				res.Errors = append(res.Errors, fmt.Sprintf("%s:%d: loop %d (declared complete) did not attach in %s", c.File, c.Line, c.Loop, res.Short))
+				continue
+			}
+			body := fi.loopBody[hdr]
+			for b := range body {
+				if b == hdr {
+					continue
+				}
+				for _, s := range b.Succs {
+					if !body[s] {
+						pos := e.prog.Fset.Position(b.Instrs[len(b.Instrs)-1].Pos())
+						o.Goal = "false"
+						o.Where = fmt.Sprintf("%s:%d", trimRepo(e.repo, pos.Filename), pos.Line)
+						o.Res = SolverResult{Status: "sat", Solver: "syntactic", Out: "early exit from the loop body at " + o.Where}
+					}
+				}
+				// a return inside the body leaves the loop as well
+				if _, isRet := b.Instrs[len(b.Instrs)-1].(*ssa.Return); isRet {
+					o.Goal = "false"
+					o.Res = SolverResult{Status: "sat", Solver: "syntactic", Out: "return inside the loop body"}
+				}
+			}
+			vf.obligs = append(vf.obligs, o)
+		}
+		res.Obligs = vf.obligs
+	}
 	for k := range fc.Loops {
 		if !vf.usedLoops[k] {
 			res.Errors = append(res.Errors, fmt.Sprintf("loop %d invariant did not attach in %s", k, res.Short))
@@ -226,7 +268,7 @@ func (e *Engine) dischargeAll(obs []*Oblig) {
 			defer func() { <-sem }()
 			if o.ExpectFail {
 				// vacuity / canary checks only need "not provably unsat": one solver, short budget
-				o.Res, o.File = dischargeOne(o.Script, e.outDir, o.Name(), 3)
+				o.Res, o.File = dischargeOne(o.Script, e.outDir, o.Name(), 2)
 			} else {
 				// obligations listed as known findings are expected to stay undischarged: no second, longer attempt
 				o.Res, o.File = discharge(o.Script, e.outDir, o.Name(), e.timeoutS, e.race, !e.knownObligs[o.Name()])
